@@ -410,9 +410,12 @@ class NetRunner:
                     f = {"claim": "unparsable-output", "site": name, "detail": res["err"][:300]}
                     rep.finding(f, {"property": pid, "finding": f, "cfg": cfg, "case": name})
                 else:
-                    stats["extractor-error"] += 0
-                    if len(samples) < 6:
-                        samples.append({"case": name, "extractor_error": res["err"][:200]})
+                    # nothing can be decided on text the extractor cannot read: the tie between the emitted files and
+                    # the netlist view is broken for this description (reported if no concrete finding turns up)
+                    stats["extractor-error"] += 1
+                    if len(disagreements) < 3:
+                        disagreements.append({"case": name, "cfg": cfg, "extractor": res["err"][:300],
+                                              "what": "the emitted files of an accepted description cannot be read"})
                 return
             if h not in seen:
                 seen.add(h)
@@ -429,6 +432,18 @@ class NetRunner:
                         continue
                     stats["overlap-variants"] += 1
                     rb = impl.run_floogen(bad)
+                    if not rb.ok and stats["overlap-cli-modes"] < 2:
+                        # … and through the command line in the modes that render only one of the two files
+                        import cliprops
+                        stats["overlap-cli-modes"] += 1
+                        for fl in (("--only-top",), ("--only-pkg",)):
+                            rc = cliprops.run_cli(bad, extra_args=fl)
+                            if (rc["rc"] == 0 or rc["files"]) and "overlap-accepted" not in reported_claims:
+                                reported_claims.add("overlap-accepted")
+                                f = {"claim": "overlap-accepted", "site": site + " with " + fl[0],
+                                     "detail": f"`floogen {fl[0]}` on a description whose expanded ranges overlap: exit status "
+                                               f"{rc['rc']}, files {sorted(rc['files'])}"}
+                                rep.finding(f, {"property": pid, "finding": f, "cfg": bad, "case": name, "cli_flag": fl[0]})
                     if rb.ok and "overlap-accepted" not in reported_claims:
                         reported_claims.add("overlap-accepted")
                         f = {"claim": "overlap-accepted", "site": site,
@@ -532,8 +547,10 @@ class NetRunner:
         if disagreements and not rep.violations:
             # the model no longer describes the implementation on this property's slice and the search
             # above found no input on which the implementation's own output violates the property
-            rep.unproven({"correspondence": f"Lean model and implementation disagree on the {SLICE.get(pid)} slice"},
-                         {"property": pid, "disagreements": disagreements})
+            what = {"correspondence": f"Lean model and implementation disagree on the {SLICE.get(pid)} slice"}
+            if any("extractor" in dg for dg in disagreements):
+                what["extractor"] = "the emitted files of an accepted description cannot be read into the netlist view"
+            rep.unproven(what, {"property": pid, "disagreements": disagreements})
         return {
             "evaluations": evaluations,
             "distinct_nontrivial": nontriv,
@@ -553,6 +570,20 @@ class NetRunner:
         import lean
         drv = lean.Driver()
         cfg = payload["cfg"]
+        if (payload.get("finding") or {}).get("claim") == "overlap-accepted":
+            # the description has overlapping ranges: it must be refused, in process and by the command line
+            drv.close()
+            rb = impl.run_floogen(cfg)
+            accepted = rb.ok
+            print("in process:", "accepted" if rb.ok else f"refused ({rb.err_type})")
+            if payload.get("cli_flag"):
+                import cliprops
+                rc = cliprops.run_cli(cfg, extra_args=(payload["cli_flag"],))
+                print(f"floogen {payload['cli_flag']}: exit status {rc['rc']}, files {sorted(rc['files'])}")
+                accepted = accepted or rc["rc"] == 0 or bool(rc["files"])
+            if accepted:
+                rep.finding(payload["finding"], payload)
+            return rep.exit_code()
         res = run_case(drv, cfg, [pid])
         drv.close()
         print(json.dumps(res, indent=1)[:3000])
